@@ -45,6 +45,7 @@ def body(ctx):
     write_loop(ctx, prog, viol)
     serialize_loop(ctx, prog, viol)
     handover(ctx, prog, viol)
+    drain_all(ctx, prog, viol)
     header(ctx, prog, viol)
     write_interest(ctx, prog, viol)
     import c08, c18
@@ -218,6 +219,33 @@ def serialize_loop(ctx, prog, viol):
                            group='serialize: attempts always at the old end of the buffer, buffer grows strictly and never past pos+L (so the loop terminates), on return exactly L bytes were appended; the "impossible error" arm is not reached under the generator contract')
             if m is not None:
                 viol.append(('serialize', k, label, ctx.explain(m, conds)[:3]))
+
+
+def drain_all(ctx, prog, viol, K=None):
+    """a wake-up for a channel takes everything that is queued on it (the queue is edge-triggered: what is left behind is not
+    announced again), in order, whatever the number of messages - bounded here by K queued messages"""
+    K = K or ctx.q(140, 300)
+    ctx.bound('messages_queued_at_one_wakeup', K)
+    ex = io_executor(ctx, prog, unwind=K + 3)
+    f = prog.method('Inner', 'handle_channel_readable')
+    a = z3.BitVec('chan_a', 16)
+    st, w = build_steady(prog, [('A', a, {'consumers': 0})])
+    MV = prog.types.variants('IoLoopMessage')
+    q = w.slots['A']['rx'].queue
+    for i in range(K):
+        buf = ByteVec(f'm{i}', b64(8), [{'kind': f'm{i}', 'pos': b64(0), 'len': b64(8)}])
+        q.append(Enum(MV.index('Send'), {MV.index('Send'): Agg({0: Agg({0: buf}, 'OutputBuffer')})}, 'IoLoopMessage'))
+    st.pc.append(w.slots['A']['rx'].tx_alive)
+    n = 0
+    for (s, rv) in ex.run(st, f, [Ref(w.inner), Int(a, 16)]):
+        n += 1
+        w1 = s.roots['w']
+        left = len(w1.slots['A']['rx'].queue)
+        kinds = [it['kind'] for it in w1.outbuf.items[1:]]
+        ok = not isinstance(rv, Panic) and err_name(prog, rv) == 'Ok' and left == 0 and kinds == [f'm{i}' for i in range(K)]
+        m = ctx.decide(f"{ctx.pid.lower()}.drain-all#{n}", s.pc, z3.BoolVal(bool(ok)), group='one wake-up of a channel appends every message queued on it, in order, and leaves its queue empty')
+        if m is not None:
+            viol.append(('drain-all', f"{left} of {K} messages left in the queue after the wake-up was handled", str(rv)[:60]))
 
 
 def handover(ctx, prog, viol):
@@ -456,6 +484,27 @@ fn verif_replay_c01() {
         i.process_channel_message(9, IoLoopMessage::Send(b3)).unwrap();
         i.outbuf.push_heartbeat();
         if i.outbuf.len() != all.len() { bad.push("append-after-seal".into()); }
+    }
+    // 4. one wake-up of a channel takes everything queued on it, in order (the queue is edge-triggered)
+    {
+        let mut i = Inner::new(HeartbeatTimers::default(), 16);
+        i.outbuf.clear();
+        i.chan_slots.set_channel_max(10);
+        let (slot, mut handle) = ChannelSlot::new(1024, 3);
+        i.chan_slots.insert(Some(3), |_| Ok((slot, ()))).unwrap();
+        let n = 700usize;
+        for k in 0..n { handle.call_nowait(amq_protocol::protocol::basic::AMQPMethod::Ack(amq_protocol::protocol::basic::Ack { delivery_tag: k as u64 + 1, multiple: false })).unwrap(); }
+        let r = i.handle_channel_readable(3);
+        let mut bytes: &[u8] = &i.outbuf[0..];
+        let mut tags: Vec<u64> = Vec::new();
+        while !bytes.is_empty() {
+            match amq_protocol::frame::parsing::parse_frame(bytes) {
+                Ok((rest, amq_protocol::frame::AMQPFrame::Method(3, amq_protocol::protocol::AMQPClass::Basic(amq_protocol::protocol::basic::AMQPMethod::Ack(a))))) => { tags.push(a.delivery_tag); bytes = rest; }
+                _ => { tags.push(0); break; }
+            }
+        }
+        if r.is_err() || tags != (1..=n as u64).collect::<Vec<u64>>() { bad.push(format!("drain-all:queued={}:appended={}:ok={}", n, tags.len(), r.is_ok())); }
+        std::mem::forget(handle);
     }
     if bad.is_empty() { println!("VERIF-REPLAY-OK runs={}", runs); } else { println!("VERIF-REPLAY-VIOLATION outbound-stream {}", bad.join(";").replace(' ', "")); }
 }
